@@ -105,6 +105,45 @@ func constCases(fn *ssa.Function, operand VM) map[*ssa.BasicBlock][]int64 {
 		if !ok {
 			continue
 		}
+		// a case list moved into a predicate helper and inlined back as an immediately-invoked literal:
+		// `case func() bool { switch x { case A, B: return true; default: return false } }():` — the constants whose
+		// arm returns true are the case list of this branch
+		if cl, isCall := iff.Cond.(*ssa.Call); isCall {
+			if g := iifeCallee(cl); g != nil {
+				inner := constCases(g, operand)
+				allBool := true
+				var ks []int64
+				for blk, list := range inner {
+					r, isRet := lastInstr(blk).(*ssa.Return)
+					if !isRet || len(r.Results) != 1 {
+						allBool = false
+						continue
+					}
+					if cst, isC := r.Results[0].(*ssa.Const); isC && cst.Value != nil && cst.Value.Kind() == constant.Bool {
+						if constant.BoolVal(cst.Value) {
+							ks = append(ks, list...)
+						}
+					} else {
+						allBool = false
+					}
+				}
+				// every other way out of the literal answers false
+				for _, gb := range g.Blocks {
+					if r, isRet := lastInstr(gb).(*ssa.Return); isRet && len(r.Results) == 1 {
+						if _, listed := inner[gb]; listed {
+							continue
+						}
+						if cst, isC := r.Results[0].(*ssa.Const); !isC || cst.Value == nil || cst.Value.Kind() != constant.Bool || constant.BoolVal(cst.Value) {
+							allBool = false
+						}
+					}
+				}
+				if allBool && len(ks) > 0 {
+					out[b.Succs[0]] = append(out[b.Succs[0]], ks...)
+				}
+			}
+			continue
+		}
 		bo, ok := iff.Cond.(*ssa.BinOp)
 		if !ok || bo.Op != token.EQL {
 			continue
